@@ -318,6 +318,13 @@ func c06Gen(tier string, rng *rand.Rand) []mCase {
 					c.expect, c.sigHint = "err", "inflated-count"
 					cs = append(cs, c)
 				}
+				// a negative count (BYTE -1, SHORT -32768, INT -2^31) is no count: list, map and simple list alike
+				for _, neg := range [][]byte{{0x00, 0xff}, {0x01, 0x80, 0x00}, {0x02, 0x80, 0x00, 0x00, 0x00}} {
+					nb := append(append(append([]byte(nil), b.bytes[:cf.Start]...), neg...), b.bytes[cf.End:]...)
+					c := mk("negative-count", fmt.Sprintf("count of wire type %d at %d -> % x", s.Ty, cf.Start, neg), nb)
+					c.expect, c.sigHint = "err", "negative-count"
+					cs = append(cs, c)
+				}
 			}
 		}
 		// inadmissible wire types
@@ -474,7 +481,7 @@ func c04Gen(tier string, rng *rand.Rand) []mCase {
 func init() {
 	props["C06"] = func(a Args) {
 		runMProp("C06", "Corr.dec_check (decode = generated ReadFrom on truncated / inflated / mistyped encodings: same outcome class and value)",
-			"valid encodings of random values of every generated struct type, then: every proper prefix (all when <= 24 bytes (thorough 120), else sampled incl. cuts inside heads, lengths and bodies) judged against the decode of the complete leading fields; every embedded string length and list/map/simple-list count inflated beyond what remains (+1, +65536/+40000); top-level members replaced by a well-formed field of an inadmissible wire type; class = (mutation kind, struct type)",
+			"valid encodings of random values of every generated struct type, then: every proper prefix (all when <= 24 bytes (thorough 120), else sampled incl. cuts inside heads, lengths and bodies) judged against the decode of the complete leading fields; every embedded string length and list/map/simple-list count inflated beyond what remains (+1, +65536/+40000) and every count replaced by a negative one (-1, -32768, -2^31); top-level members replaced by a well-formed field of an inadmissible wire type; class = (mutation kind, struct type)",
 			a, c06Gen, 10000)
 	}
 	props["C04"] = func(a Args) {
